@@ -2,6 +2,7 @@ import Setec.Model.Cli
 import Setec.Proofs.DB
 import Setec.Proofs.Crypto
 import Setec.Proofs.Base64
+import Setec.Proofs.CacheDoc
 /-!
 # C18 - secret bytes round-trip unchanged end to end, including through the CLI
 
@@ -84,5 +85,13 @@ theorem cli_sends_input_or_trimmed (valid : Bool) (value trimmed : Bytes) (f : F
 
 /-- non-vacuity: " x " with --trim-space is sent as "x" -/
 example : Cli.put true [32, 120, 32] [120] { verbatim := false, trimSpace := true, emptyOK := false } = .send [120] := by decide
+
+/-- the store's cache file returns every byte string unchanged, whatever the other entries and
+names in the document are: the value recorded for a name in the written document is the
+value read back for it -/
+theorem cache_file_roundtrip (d : Store.Doc) (n : String) :
+    (CacheDoc.readDoc (CacheDoc.renderDoc d)).map (fun d' => (d'[n]?).map (·.1.value)) =
+      some ((d[n]?).map (·.1.value)) := by
+  rw [CacheDoc.readDoc_render]; rfl
 
 end Setec.C18
